@@ -45,6 +45,7 @@ func init() {
 			{"checkBroadcastHashRanges", "MultiHandler.checkBroadcastHash: which queues are compared", rangesIn("pkg/protocol/handler.go", "MultiHandler.checkBroadcastHash")},
 			{"finalizeEcho", "MultiHandler.finalize: the echo check precedes the round's Finalize", callsIn("pkg/protocol/handler.go", "MultiHandler.finalize", `receivedAll|checkBroadcastHash|Finalize|abort`)},
 			{"outCapacity", "capacity of the handlers' out channels", append(callsIn("pkg/protocol/handler.go", "NewMultiHandler", `^make$`), callsIn("pkg/protocol/twoparty.go", "NewTwoPartyHandler", `^make$`)...)},
+			{"verifyOrder", "verifyMessage / verifyBroadcastMessage / abortVerification: the view check precedes decoding and verification", append(append(callsIn("pkg/protocol/handler.go", "MultiHandler.verifyBroadcastMessage", `sameBroadcastView|getRoundMessage|StoreBroadcastMessage|verifyMessage`), callsIn("pkg/protocol/handler.go", "MultiHandler.verifyMessage", `sameBroadcastView|getRoundMessage|VerifyMessage|StoreMessage`)...), append(guardsIn("pkg/protocol/handler.go", "MultiHandler.sameBroadcastView"), callsIn("pkg/protocol/handler.go", "MultiHandler.abortVerification", `abort|Is`)...)...)},
 			{"isFor", "Message.IsFor", append(guardsIn("pkg/protocol/message.go", "Message.IsFor"), returnsIn("pkg/protocol/message.go", "Message.IsFor")...)},
 		}
 	})
